@@ -897,6 +897,56 @@ def _arpack_k(o, rule, p, E, k, T):
             '(nearly) all eigenpairs must take the dense solver' % (conds[:300], u(k)), construct=construct)
 
 
+_NOCONV = ('ArpackNoConvergence', 'ArpackError', 'RuntimeError', 'Exception', 'BaseException')
+_ITERATIVE = ('eigs', 'eigsh')
+_DIRECT = ('eig', 'eigh', 'eigvals', 'eigvalsh')
+
+
+def _no_convergence(ck, rule, mod, fn, F):
+    """normalize-sparse-arpack-noconv.  scipy.sparse.linalg.eigs is an ITERATIVE
+    solver whose documented outcome for admissible input includes `raise
+    ArpackNoConvergence` (no bound on the iteration count guarantees
+    convergence; eigenvalues clustered at 1 - slowly mixing, non-reversible
+    chains - defeat the Arnoldi iteration, and tol below machine precision
+    makes the stopping test unreachable).  A routine that must return the
+    spectrum / stationary vector for EVERY ergodic matrix can therefore use it
+    only inside a try whose handler for that exception computes the result with
+    a direct solver (and does not re-raise).  Decided from the shape: the
+    enclosing try statements of each iterative-solver call and their handlers."""
+    n = 0
+    for c in [c for c in walk_local(fn) if isinstance(c, ast.Call) and (call_name(c) or '').split('.')[-1] in _ITERATIVE]:
+        n += 1
+        construct = 'non-convergence of the iterative eigensolver %s' % (call_name(c) or '').split('.')[-1]
+        handler = None
+        node, par = c, mod.parent.get(c)
+        while par is not None and par is not fn:
+            if isinstance(par, ast.Try) and any(node is b or any(node is x for x in ast.walk(b)) for b in par.body):
+                for h in par.handlers:
+                    names = [h.type] if h.type is not None and not isinstance(h.type, ast.Tuple) else (list(h.type.elts) if h.type is not None else [])
+                    if h.type is None or any(u(t).split('.')[-1] in _NOCONV for t in names):
+                        handler = handler or h
+            node, par = par, mod.parent.get(par)
+        if handler is None:
+            ck.bad(rule, mod, c, F, construct,
+                   '`%s` is not inside a try that handles ArpackNoConvergence: the Arnoldi iteration is not guaranteed to '
+                   'converge (e.g. a 1000-state lazy biased random walk on a ring - strongly connected, aperiodic, stationary '
+                   'law uniform - makes eigs(T.T, 3, which="LR") give up after maxiter restarts), so for sparse input with '
+                   '>= 1000 states the builders / eq_probs / eigenspectrum raise instead of returning the stationary vector that '
+                   'the dense route computes exactly; fall back to the dense solver in the handler' % u(c)[:70])
+            continue
+        reraises = any(isinstance(b, ast.Raise) for b in handler.body)
+        direct = [x for b in handler.body for x in ast.walk(b) if isinstance(x, ast.Call) and (call_name(x) or '').split('.')[-1] in _DIRECT + _ITERATIVE]
+        if reraises and not direct:
+            ck.bad(rule, mod, handler, F, construct,
+                   'the handler for %s around `%s` only logs and re-raises: non-convergence of the iterative solver still aborts '
+                   'the computation although a direct solver would succeed' % (u(handler.type) if handler.type is not None else 'all exceptions', u(c)[:60]))
+        elif direct:
+            ck.ok(rule, mod, handler, construct, 'on non-convergence the result is computed by %s' % (call_name(direct[0]) or '?'))
+        else:
+            ck.missing(rule, 'what the handler of %s around %s does' % (u(handler.type) if handler.type is not None else 'all exceptions', u(c)[:60]))
+    return n
+
+
 def check_spectrum(ck, prefix, arpack_k=False):
     """eigenspectrum / eq_probs: ordering, column permutation, normalisation
     (arpack_k: also the k < N - 1 bound of the sparse solver, see _arpack_k).
@@ -1024,6 +1074,8 @@ def check_spectrum(ck, prefix, arpack_k=False):
     if paths is not None:
         ck.floor(rule + '.which', n_sparse, 1, 'sparse eigensolver call')
         ck.floor(rule + '.dense', n_dense, 1, 'dense eigensolver call')
+    # added after the bug hunt (normalize-sparse-arpack-noconv)
+    _no_convergence(ck, rule + '.no-convergence', mod, fn, F)
     # --- eq_probs
     fe = mod.func('eq_probs')
     ck.analysed(mod, fe)
